@@ -65,6 +65,7 @@ _OOO_NAMESPACES = {
     "xsi": "http://www.w3.org/2001/XMLSchema-instance",
 }
 _NUMBER_COLUMNS_REPEATED = "{" + _OOO_NAMESPACES["table"] + "}number-columns-repeated"
+_TEXT_PREFIX = "{" + _OOO_NAMESPACES["text"] + "}"
 
 
 def _excel_cell_value(cell, datemode):
@@ -213,6 +214,30 @@ def _findall(element, xpath, namespaces):
     return result
 
 
+def _ods_text(element, location):
+    """
+    The text of a ``text:p`` element (or an element nested in it, for example
+    ``text:span``) including white space stored as ``text:s``, ``text:tab``
+    and ``text:line-break``.
+    """
+    result = element.text or ""
+    for child in element:
+        if child.tag == _TEXT_PREFIX + "s":
+            count_text = child.attrib.get(_TEXT_PREFIX + "c", "1")
+            try:
+                result += " " * int(count_text)
+            except ValueError:
+                raise errors.DataFormatError("text:c is %s but must be an integer" % _compat.text_repr(count_text), location)
+        elif child.tag == _TEXT_PREFIX + "tab":
+            result += "\t"
+        elif child.tag == _TEXT_PREFIX + "line-break":
+            result += "\n"
+        else:
+            result += _ods_text(child, location)
+        result += child.tail or ""
+    return result
+
+
 def ods_rows(source_ods_path, sheet=1):
     """
     Rows stored in ODS document ``source_ods_path`` in ``sheet``.
@@ -277,11 +302,8 @@ def ods_rows(source_ods_path, sheet=1):
                     "table:number-columns-repeated is %s but must be an integer" % _compat.text_repr(repeated_text),
                     location,
                 )
-            text_p = table_cell.find("text:p", namespaces=_OOO_NAMESPACES)
-            if text_p is None:
-                cell_value = ""
-            else:
-                cell_value = text_p.text
+            text_ps = _findall(table_cell, "text:p", namespaces=_OOO_NAMESPACES)
+            cell_value = "\n".join(_ods_text(text_p, location) for text_p in text_ps)
             row.extend([cell_value] * repeated_count)
             location.advance_cell(repeated_count)
         yield row
